@@ -338,6 +338,22 @@ func main() {
 			})
 			obj(frames, "a compressed chunk written by "+filepath.Base(pair[0])+" is not a single standard zstd frame")
 		}
+		// casync writes chunks with libzstd's streaming compressor: frames without content size and with the level's window
+		// (2 MiB) whatever the chunk's size. A store written that way must be readable by both builds.
+		{
+			d := filepath.Join(*dir, "stream")
+			os.RemoveAll(d)
+			os.MkdirAll(d, 0755)
+			if err := exec.Command(*zlib, "writestream", d, fmt.Sprint(*seed)).Run(); err != nil {
+				obj(false, "helper could not write a store with libzstd's streaming compressor")
+			} else {
+				for _, bin := range []string{*zdefault, *zlib} {
+					res := runJSON(bin, "read", d)
+					obj(res["total"].(float64) >= 10 && len(res["bad"].([]interface{})) == 0,
+						fmt.Sprintf("chunks written with libzstd's streaming compressor (as casync does) are not readable by %s: %v", filepath.Base(bin), res["bad"]))
+				}
+			}
+		}
 		// casync-written fixture stores
 		for _, fx := range []string{"testdata/blob1.store", "testdata/blob2.store", "cmd/desync/testdata/blob1.store", "cmd/desync/testdata/blob2.store"} {
 			p := filepath.Join(*repo, fx)
